@@ -66,17 +66,20 @@ func (t *MediaServerControl) unmarshal(v string) error {
 
 func (t MediaServerControl) marshal() string {
 	ret := "#EXT-X-SERVER-CONTROL:"
+	sep := ""
 
 	if t.CanBlockReload {
 		ret += "CAN-BLOCK-RELOAD=YES"
+		sep = ","
 	}
 
 	if t.PartHoldBack != nil {
-		ret += ",PART-HOLD-BACK=" + strconv.FormatFloat(t.PartHoldBack.Seconds(), 'f', 5, 64)
+		ret += sep + "PART-HOLD-BACK=" + strconv.FormatFloat(t.PartHoldBack.Seconds(), 'f', 5, 64)
+		sep = ","
 	}
 
 	if t.CanSkipUntil != nil {
-		ret += ",CAN-SKIP-UNTIL=" + strconv.FormatFloat(t.CanSkipUntil.Seconds(), 'f', 5, 64)
+		ret += sep + "CAN-SKIP-UNTIL=" + strconv.FormatFloat(t.CanSkipUntil.Seconds(), 'f', 5, 64)
 	}
 
 	ret += "\n"
